@@ -44,6 +44,8 @@ type Contract struct {
 	NoInline bool
 	Refines  string
 	NoSafety bool
+	Auto     bool
+	AutoInv  *Clause // clause used as invariant of every loop (sweep)
 	File     string
 	Line     int
 }
